@@ -147,6 +147,22 @@ pub fn c09(tier: Tier) -> i32 {
     common(&mut rep);
     crate::enumchecks::c09_leader(&mut rep, tier);
     solo_std(&mut rep, "C09", tier, true);
+    // the leader of round R+1 with a payload source: every order (depth 7 -> 8) of the round-<=R
+    // blocks, the others' votes, timeouts and TCs, its own mempool handing it a digest, and its timer;
+    // between two requests to its proposer the payload buffer may have changed, so a second
+    // proposal for a round is a *different* signed block
+    for (n, r) in tier.pick(vec![(2usize, 1u64)], vec![(2usize, 1u64), (3, 2), (0, 3)]) {
+        let mut sc: SoloCfg = solo::default_cfg(n, r, tier);
+        sc.with_votes = true;
+        sc.with_timeouts = true;
+        sc.stale_variants = false;
+        sc.with_invalid = false;
+        sc.with_digest = true;
+        sc.max_depth = tier.pick(7, 8);
+        sc.max_states = tier.pick(150_000, 3_000_000);
+        sc.wall_cap_s = tier.pick(25.0, 300.0);
+        solo::run(&mut rep, "C09", "leader+payload-source", sc);
+    }
     let mut cfgs = match tier {
         Tier::Quick => vec![cfg_b4(3, 3, 0, 1, tier), cfg_b4(0, 3, 0, 1, tier)],
         Tier::Thorough => {
@@ -244,7 +260,7 @@ pub fn replay(property: &str, path: &str) -> i32 {
             };
             let ln = live.get_mut(&node).unwrap();
             let res = ln.apply(&uni, ev);
-            let desc = match ev { Ev::Timer => "timer expires".to_string(), Ev::Batch(k) => format!("batch {} arrives in the store", k), Ev::Deliver(m) => format!("deliver {}", uni.msg(m).desc) };
+            let desc = match ev { Ev::Timer => "timer expires".to_string(), Ev::Batch(k) => format!("batch {} arrives in the store", k), Ev::Digest(k) => format!("own mempool hands digest {} to the proposer", k), Ev::Deliver(m) => format!("deliver {}", uni.msg(m).desc) };
             report(node, k, desc, &res);
             hit |= res.findings.iter().any(|f| f.property == property);
         }
@@ -273,12 +289,14 @@ pub fn replay(property: &str, path: &str) -> i32 {
                 Ev::Timer
             } else if let Some(k) = e.strip_prefix("batch:") {
                 Ev::Batch(k.parse().unwrap_or(0))
+            } else if let Some(k) = e.strip_prefix("digest:") {
+                Ev::Digest(k.parse().unwrap_or(0))
             } else {
                 let m: consensus::verif::ConsensusMessage = bincode::deserialize(&unhex(e)).unwrap();
                 Ev::Deliver(uni.intern(m))
             };
             let res = ln.apply(&uni, ev);
-            let desc = match ev { Ev::Timer => "timer expires".to_string(), Ev::Batch(k) => format!("batch {} arrives in the store", k), Ev::Deliver(m) => format!("deliver {}", uni.msg(m).desc) };
+            let desc = match ev { Ev::Timer => "timer expires".to_string(), Ev::Batch(k) => format!("batch {} arrives in the store", k), Ev::Digest(k) => format!("own mempool hands digest {} to the proposer", k), Ev::Deliver(m) => format!("deliver {}", uni.msg(m).desc) };
             report(node, k, desc, &res);
             hit |= res.findings.iter().any(|f| f.property == property);
         }
